@@ -91,6 +91,9 @@ def universe():
     u.append((3, 1, 0, 0, None, "1.0.0"))
     u.append((3, 3, 0, 0, None, "3.0.0"))
     u.append((4, 3, 0, 0, "SNAPSHOT", "3.0.0-SNAPSHOT"))
+    # unrelated branches that merely START like a version (a number followed by a dash suffix without a patch level)
+    u.append((0, 2, None, None, "odd", "2-dev"))
+    u.append((0, 2, 1, None, "odd", "2.1-wip"))
     return u
 
 
@@ -118,6 +121,18 @@ def documented_best_match(branches, V):
     return None
 
 
+def documented_best_match_alternatives(branches, V):
+    """names like '2-dev' do not follow the scheme; whether they count as 'versioned branches' for the master decision is left open:
+    both readings are accepted"""
+    a = documented_best_match(branches, V)
+    counted = [((1,) + b[1:]) if b[4] == "odd" else b for b in branches]
+    latest = max([b[1] for b in counted if b[0] != 0], default=-1)
+    b_ = a
+    if a == "master" and not V[0] > latest:
+        b_ = None
+    return {a, b_}
+
+
 def best_match_names(sl):
     n = sl["branches"]
     idx = []
@@ -136,8 +151,15 @@ def best_match_names(sl):
     s = "SNAPSHOT" if Vs else None
     M = sl["major"]
     text = "%d.%d.%d" % (M, m, p) + ("-SNAPSHOT" if s else "")
-    got = versions.best_match([b[5] for b in branches], text)
-    exp = documented_best_match(branches, (M, m, p, s))
+    try:
+        got = versions.best_match([b[5] for b in branches], text)
+    except Exception as e:  # noqa: BLE001 - unrelated branch names must not break the match
+        core.note("branches", [b[5] for b in branches])
+        core.note("best_match raised", repr(e))
+        observe("best_match copes with every branch list (unrelated names included)", False)
+        return
+    exps = documented_best_match_alternatives(branches, (M, m, p, s))
+    exp = documented_best_match(branches, (M, m, p, s)) if got not in exps else got
     core.note("branches", [b[5] for b in branches])
     core.note("version", text)
     core.note("got/expected", (got, exp))
